@@ -14,6 +14,9 @@ import (
 	"time"
 )
 
+// crossCheckGrace: how long the remaining solvers may run after the first definite answer (thorough tier)
+const crossCheckGrace = 8 * time.Second
+
 type SolveResult struct {
 	Status  string // unsat, sat, unknown, timeout, error
 	Solver  string
@@ -367,6 +370,9 @@ func Solve(vc *VC, o *Obligation, dir string, timeout int, modelVars []string, c
 			best = r
 			if !crossCheck {
 				cancel()
+			} else {
+				// thorough tier: give the other solvers a grace period to confirm or contradict the answer
+				time.AfterFunc(crossCheckGrace, cancel)
 			}
 		case definite && crossCheck && best.Status != r.Status:
 			best = &SolveResult{Status: "error", Solver: "cross-check", Output: fmt.Sprintf("solvers disagree: %v", all), File: fname}
